@@ -48,6 +48,14 @@ ERRORS = [
     ("bad-suffix", "lda.q #1", 4), ("bad-suffix-eol", "lda.", 4), ("bad-index", "lda 0x10,z", 9), ("bad-index-spaced", "lda 0x10 ,  q", 12),
     ("unterminated-string", ".ascii 'abc", 7), ("invalid-char", "lda #1 ?", 7), ("invalid-char-start", "$", 0),
     ("unknown-keyword", ".bogus 1", 1), ("unterminated-comment", "/* never closed", 0),
+    # a string left open whose last character is a backslash, with a quote on the next line: still THIS line's error
+    ("unterminated-string-backslash", ".ascii 'C:\\", 7), ("unterminated-string-backslash-q", ".ascii 'it\\'s\\", 7),
+    # a statement continued on the following lines (newlines are blanks between tokens): the report names the line the
+    # statement STARTS on and quotes that line
+    ("undef-dw-continued", ".dw\n    0x1234,\n    zz_undef_name", None), ("undef-db-continued", ".db 1,\n    zz_undef_name", None),
+    ("undef-operand-continued", "lda.w\n    zz_undef_name", None),
+    # (not planted: `*=` / `@=` continued on the next line — their site is the first token of the expression, i.e. the
+    #  second line of the statement, DESIGN S.6)
     # the same expression text appears earlier in a correct statement (where the name is visible): the report must
     # point at THIS statement, not at the earlier one (4th field: lines placed before the statement)
     ("undef-same-text-db", ".db zz_in + 1", None, "{\nzz_in = 5\n.db zz_in + 1\n}"),
@@ -94,6 +102,8 @@ def cases(ctx):
                 tail = rng.choice(["", "", "nop", "; after"])
                 if kind in ("unterminated-comment",) and tail:
                     tail = ""
+                if kind.startswith("unterminated-string-backslash"):
+                    tail = rng.choice([".ascii 'ok'", "lda.b #1 ; it's fine", "nop ; ' \\'"])
                 err_line = indent + stmt
                 # the statement may stand inside an enclosing construct (the report still names ITS line), and in the
                 # main file it may come after an .include of a correct file (whose lines do not count)
@@ -119,5 +129,5 @@ def cases(ctx):
                     files, fname = {"inc/part.s": inc}, "inc/part.s"
                 out.append({"kind": f"{kind}:{where}", "rom": rom, "src": src, "files": files, "count_empty": True,
                             "spec": {"t": "c17", "file": fname, "line": line_no,
-                                     "col": None if col is None else col + len(indent), "text": err_line}})
+                                     "col": None if col is None else col + len(indent), "text": err_line.split("\n")[0]}})
     return out
